@@ -328,6 +328,34 @@ def known_set_accumulation(ctx, chk, rule):
             chk.ok(rule, DIRECT, f'`{k}`: {len(accs)} accumulation site(s) in the paging loop', detail='initialised once, only accumulated inside loops')
 
 
+def loose_add_delegation(ctx, chk, R1):
+    """Container.add_object has no path of its own: every path returns what add_streamed_object returns for a stream over exactly the given
+    content (so every loose write goes through the one writer that verifies, repairs and publishes)."""
+    prog, K = ctx.prog, ctx.kinds
+    ao = K.container.methods.get('add_object')
+    chk.require(ao is not None, 'Container.add_object not found')
+    cparam = next((p_ for p_ in ao.params if p_ != 'self'), None)
+    rets = [n for n in walk_local(ao.node) if isinstance(n, ast.Return)]
+    ok = bool(rets)
+    for r in rets:
+        v = r.value
+        if not (isinstance(v, ast.Call) and isinstance(v.func, ast.Attribute) and v.func.attr == 'add_streamed_object' and norm(v.func.value) == 'self' and len(v.args) + len(v.keywords) == 1):
+            ok = False
+            continue
+        a = (v.args + [k.value for k in v.keywords])[0]
+        if isinstance(a, ast.Name):
+            from ..effects import last_assignment
+            a = last_assignment(a.id, ao, r.lineno) or a
+        if not (isinstance(a, ast.Call) and norm(a.func).endswith('BytesIO') and len(a.args) == 1 and norm(a.args[0]) == cparam):
+            ok = False
+    if ok and len(rets) == 1:
+        chk.ok(R1, ao.qualname, norm(rets[0])[:80], detail='the only path: hand the content to the streaming writer')
+    else:
+        w = rets[0] if rets else ao.node
+        chk.bad(R1, ao.qualname, norm(w)[:100], 'add_object has a path of its own (an early return / another way of storing) instead of handing the whole content to add_streamed_object: '
+                'such a path skips the verification and repair of an existing loose copy (and the single publishing protocol)', where=f'{ao.module.relpath}:{getattr(w, "lineno", ao.lineno)}')
+
+
 def publish_handlers(ctx, chk, R1):
     """ObjectWriter.__exit__: a failure to move a NEW object into loose/ may be handled only when the destination appeared meanwhile
     (FileExistsError); shared by C09.R1 and C01.R2."""
@@ -397,7 +425,12 @@ def run(ctx, host=None):
                             '(locked, permissions, I/O error) is then kept as if it had been verified and the new, correct bytes are discarded', where=f'{vf.module.relpath}:{h.lineno}')
                 elif returns_none:
                     chk.ok(R1, vq, 'except FileNotFoundError: return None', detail='only a vanished file counts as gone', nontrivial=False)
+                last = h.body[-1]
+                if not isinstance(last, (ast.Return, ast.Raise)):
+                    chk.bad(R1, vq, f'except {ht}: ... (falls through)', f'after `{ht}` the checksum helper goes on to return the digest of whatever was read so far (nothing, for a file that vanished): the digest '
+                            'of the empty string then stands for the existing copy -- an empty object is taken as "already stored and intact" although no file is there', where=f'{vf.module.relpath}:{h.lineno}')
     publish_handlers(ctx, chk, R1)
+    loose_add_delegation(ctx, chk, R1)
     # destination name is a function of the key only
     ex = prog.fn('utils:ObjectWriter.__exit__')
     bad_names = []
